@@ -102,6 +102,8 @@ class AbstractLinearOperator(lx.AbstractLinearOperator, ABC):  # type: ignore[mi
         jcounter = 0
 
         for ileaf, leaf in enumerate(in_leaves_ref):
+            if leaf.size == 0:
+                continue
 
             def body(index, carry):  # type: ignore[no-untyped-def]
                 matrix, jcounter = carry
